@@ -144,6 +144,9 @@ def run(ctx):
     r71(ctx, rep, fns)
     r72(ctx, rep)
     r73(ctx, rep)
+    from .plumbing import check_plumbing
+    rep.rule('R7.5', 'view -> iterator plumbing of the hash joins: self.X reaches the parameter named X')
+    ctx.floor('plumbing_sites', check_plumbing(ctx, rep, 'R7.5', ['petl.transform.hashjoins']), 25)
     # R7.4 from C11
     from . import c11
     from ..report import Report
